@@ -1119,6 +1119,15 @@ class ReplacingNodeVisitor(BaseNodeVisitor):
         transformer = ReplaceNodeTransformer(current_node, new_node)
         lines = self._lines()
         lines_to_remove = analysis_lib.get_line_range_for_node(current_statement, lines)
+        # The decorators of a definition are part of what is written back, so their
+        # lines have to be replaced as well (the node itself starts at "def"/"class").
+        decorators = getattr(current_statement, "decorator_list", None)
+        if decorators:
+            first_decorator_line = min(decorator.lineno for decorator in decorators)
+            lines_to_remove = [
+                *range(first_decorator_line, current_statement.lineno),
+                *lines_to_remove,
+            ]
         first_line = lines[current_statement.lineno - 1]
         indent = analysis_lib.get_indentation(first_line)
         node = transformer.visit(current_statement)
@@ -1126,6 +1135,15 @@ class ReplacingNodeVisitor(BaseNodeVisitor):
             parent_lines = decompile(node, starting_indentation=indent).splitlines()
         except NotImplementedError:
             return None
+        # An "elif" clause is an If node in the orelse of its parent; written back on
+        # its own it has to stay an "elif", or it would become a separate statement.
+        if (
+            isinstance(current_statement, ast.If)
+            and first_line[indent:].startswith("elif")
+            and parent_lines
+            and parent_lines[0][indent:].startswith("if ")
+        ):
+            parent_lines[0] = parent_lines[0][:indent] + "el" + parent_lines[0][indent:]
         # Keep the leading whitespace of the original statement (it may consist of
         # tabs); the decompiler always indents with spaces.
         prefix = first_line[:indent]
